@@ -15,6 +15,7 @@ pub mod c13;
 pub mod c14;
 pub mod c15;
 pub mod c17;
+pub mod c18;
 pub mod c21;
 pub mod c23;
 pub mod c24;
@@ -47,6 +48,8 @@ pub fn registry() -> &'static [Check] {
         Check { meta: &c14::META, run: c14::run, shards: (16, 16) },
         Check { meta: &c15::META, run: c15::run, shards: (16, 16) },
         Check { meta: &c17::META, run: c17::run, shards: (16, 16) },
+        Check { meta: &c18::META18, run: c18::run18, shards: (16, 16) },
+        Check { meta: &c18::META19, run: c18::run19, shards: (16, 16) },
         Check { meta: &c21::META21, run: c21::run21, shards: (16, 16) },
         Check { meta: &c21::META22, run: c21::run22, shards: (16, 16) },
         Check { meta: &c23::META, run: c23::run, shards: (16, 16) },
